@@ -225,6 +225,7 @@ def check_op(fm, op, opener, reqs, state, slot_key):
     preload = opener != 'xarray' and readers.OPENERS[opener].get('preload', False)
     rr = [(r[3], r[3] + r[4]) for r in reqs]
     data_rng = (L.data_start, L.data_end)
+    pre_key = ('preload-done',) + tuple(slot_key[:2])
     if op[0] == 'open':
         hdr = L.header_range()
         n_data = 0
@@ -236,9 +237,11 @@ def check_op(fm, op, opener, reqs, state, slot_key):
                 continue
             return 'open-outside-header', f'open via {opener} requested bytes [{lo},{hi}) outside the header blocks', None
         if preload:
-            n_readers = 1 if readers.OPENERS[opener]['kind'] == 'reader' else 1
-            if n_data != n_readers:
+            # "fetched exactly once and never again": at open, or (a lazy implementation) by the first call
+            if n_data > 1:
                 return 'preload-not-once', f'open with preload fetched the data section {n_data} times', None
+            if n_data == 1:
+                state.setdefault('preloaded', set()).add(pre_key)
         return None, '', ('open', backend, preload)
     if op[0] != 'call':
         return None, '', None
@@ -252,6 +255,10 @@ def check_op(fm, op, opener, reqs, state, slot_key):
     foot = []
     for lo, hi in rr:
         if lo >= L.data_start and hi <= L.data_end:
+            if preload and (lo, hi) == data_rng and pre_key not in state.setdefault('preloaded', set()):
+                state['preloaded'].add(pre_key)          # lazy preload: the one fetch of the whole section
+                touched.update(need['blocks'])
+                continue
             if preload:
                 return 'preload-refetch', f'{call} on a preload reader requested data bytes [{lo},{hi})', None
             ks = range((lo - L.data_start) // 4096, (hi - 1 - L.data_start) // 4096 + 1)
